@@ -20,8 +20,14 @@ Definition moral_adj (g : mgraph) (a b : nat) : bool :=
 Definition all_pairs (vs : list nat) : list (nat * nat) :=
   flat_map (fun a => map (fun b => (a, b)) vs) vs.
 
+(* the same test with the sets district(v) ∪ Pa(district(v)) computed once *)
+Definition moral_adj_pre (g : mgraph) (dps : list (list nat)) (a b : nat) : bool :=
+  negb (Nat.eqb a b) && (skel_adj g a b || existsb (fun dp => memb a dp && memb b dp) dps).
+
+(* = filter (a < b && moral_adj g a b) over all pairs of nodes  (Spec.v: moral_edges_spec) *)
 Definition moral_edges (g : mgraph) : list (nat * nat) :=
-  filter (fun p => Nat.ltb (fst p) (snd p) && moral_adj g (fst p) (snd p)) (all_pairs (V g)).
+  let dps := map (dist_pa g) (V g) in
+  filter (fun p => Nat.ltb (fst p) (snd p) && moral_adj_pre g dps (fst p) (snd p)) (all_pairs (V g)).
 
 (* ---- the separation criterion: vertex cut in the moral graph of the anterior subgraph ---- *)
 (* anterior closure: follow directed edges backwards and undirected edges (mirror of _anterior) *)
@@ -36,32 +42,33 @@ Definition restrict (g : mgraph) (s : list nat) : mgraph :=
   MkG (filter (fun v => memb v s) (V g)) (keep_edges s (D g)) (keep_edges s (B g))
       (keep_edges s (U g)) (keep_edges s (C g)).
 
-Definition moral_nbrs (g : mgraph) (v : nat) : list nat := filter (fun b => moral_adj g v b) (V g).
+(* neighbours of v in an undirected graph given by its node list and edge list *)
+Definition nbrs_in (vs : list nat) (es : list (nat * nat)) (v : nat) : list nat :=
+  filter (fun b => smemb v b es) vs.
 
-(* nodes reachable from X in the moral graph of g along paths that never touch Z *)
-Definition cut_reach (g : mgraph) (X Z : list nat) : list nat :=
-  closure Nat.eqb (fun v => diffb (moral_nbrs g v) Z) (diffb X Z) (length (V g)).
+(* nodes reachable from X in the graph (vs, es) along paths that never touch Z *)
+Definition cut_reach (vs : list nat) (es : list (nat * nat)) (X Z : list nat) : list nat :=
+  closure Nat.eqb (fun v => diffb (nbrs_in vs es v) Z) (diffb X Z) (length vs).
 
 (* Z is a vertex cut between X and Y in the moral graph of g *)
 Definition vertex_cut (g : mgraph) (X Y Z : list nat) : bool :=
-  negb (existsb (fun y => memb y (cut_reach g X Z)) Y).
+  let r := cut_reach (V g) (moral_edges g) X Z in
+  negb (existsb (fun y => memb y r) Y).
 
 Definition ant_graph (g : mgraph) (s : list nat) : mgraph := restrict g (ant_of g s).
 
 Definition moral_sep (g : mgraph) (X Y Z : list nat) : bool :=
   vertex_cut (ant_graph g (X ++ Y ++ Z)) X Y Z.
 
-(* run_case: L [I 0; graph] -> L [nodes; edges]
-             L [I 1; graph; L [L [X;Y;Z]; ...]] -> per query L [criterion; msep_dec]   (small graphs)
-             L [I 2; graph; queries]             -> per query L [criterion]            (large graphs) *)
+(* run_case: L [I mode; graph; L [L [X;Y;Z]; ...]] -> L [nodes; edges; per query L [criterion; msep_dec]]
+   mode 0: with the brute-force oracle msep_dec (small graphs); mode 1: criterion only *)
 Definition run_case (s : sx) : sx :=
   let g := sx_graph (sx_nth s 1) in
   let qs := sx_list (sx_nth s 2) in
   let q3 (q : sx) := (sx_nats (sx_nth q 0), sx_nats (sx_nth q 1), sx_nats (sx_nth q 2)) in
-  match sx_nat (sx_nth s 0) with
-  | 0 => L [of_nats (sort_set (V g)); of_pairs (psort_set (moral_edges g))]
-  | 1 => L (map (fun q => let '(X, Y, Z) := q3 q in
-                          L [of_bool (moral_sep g X Y Z); of_bool (msep_dec g X Y Z)]) qs)
-  | 2 => L (map (fun q => let '(X, Y, Z) := q3 q in L [of_bool (moral_sep g X Y Z)]) qs)
-  | _ => L []
-  end.
+  L [of_nats (sort_set (V g)); of_pairs (psort_set (moral_edges g));
+     match sx_nat (sx_nth s 0) with
+     | 0 => L (map (fun q => let '(X, Y, Z) := q3 q in
+                             L [of_bool (moral_sep g X Y Z); of_bool (msep_dec g X Y Z)]) qs)
+     | _ => L (map (fun q => let '(X, Y, Z) := q3 q in L [of_bool (moral_sep g X Y Z)]) qs)
+     end].
